@@ -228,9 +228,23 @@ class L1(object):
             elif k == 'rpcstop':
                 o.mood = op['mood']
                 o.killres = op['kill']
+                form = op.get('form')
                 try:
-                    self.rpc.stopProcess('g:p', wait=False)
-                    self.outs.append('answer:%d' % xmlrpc.Faults.SUCCESS)
+                    if not form:
+                        self.rpc.stopProcess('g:p', wait=False)
+                        self.outs.append('answer:%d' % xmlrpc.Faults.SUCCESS)
+                    else:
+                        # the group-wide forms of the same request (only generated for a process they must act on: starting,
+                        # running or backing off): `stop g:*`, stopProcessGroup, stopAllProcesses -- one status entry for it
+                        res = {'star': lambda: self.rpc.stopProcess('g:*', wait=False),
+                               'group': lambda: self.rpc.stopProcessGroup('g', wait=False),
+                               'all': lambda: self.rpc.stopAllProcesses(wait=False)}[form]()
+                        for _ in range(5):
+                            if not callable(res):
+                                break
+                            res = res()
+                        mine = [r for r in res if r.get('name') == 'p'] if isinstance(res, list) else None
+                        self.outs.append('answer:%s' % (mine[0]['status'] if mine else 'none'))
                 except xmlrpc.RPCError as e:
                     self.outs.append('answer:%d' % e.code)
             elif k == 'rpcsignal':
